@@ -40,7 +40,7 @@ def register4(E):
         if isinstance(x0, Agg) and x0.ty and 'RangeInclusive' in x0.ty: return It('range', pos=x0.f[0], end=x0.f[1] + 1)
         if isinstance(x0, Agg) and x0.ty and 'RangeFrom' in x0.ty: return It('range', pos=x0.f[0], end=float('inf'))
         if isinstance(x0, Agg) and x0.ty and 'Range' in x0.ty: return It('range', pos=x0.f[0], end=x0.f[1])
-        if isinstance(x0, Enum) and x0.ty == 'Option': return It('list', l=list(x0.f), pos=0)
+        if isinstance(x0, Enum) and x0.ty == 'Option': return It('list', l=([Ref(x0.f, 0)] if x0.f else []) if isinstance(x, Ref) else list(x0.f), pos=0)     # &Option<T> iterates over &T
         if isinstance(x0, Agg) and x0.ty and x0.ty not in ('arr', 'tup') and E._find_impl('next', 'Iterator', x0.ty, 1) is not None: return It('crate', obj=[x0])
         if isinstance(x0, Agg) and x0.ty and x0.ty not in ('arr', 'tup'):
             from .mir import type_key, strip_lifetimes
